@@ -357,6 +357,15 @@ class Parser:
             self.__curcommand = test
             return self.__check_command_completion(testsemicolon=False)
 
+        condition = (
+            ttype in ["comma", "right_parenthesis"]
+            and self.__curcommand.non_deterministic_args
+        )
+        if condition and self.__curcommand.reassign_arguments():
+            # rewind lexer: the token is read again, by the test list this time
+            self.lexer.pos -= 1
+            return self.__check_command_completion(testsemicolon=False)
+
         if ttype == "left_parenthesis":
             self.__push_expected_bracket("right_parenthesis", b")")
             self.__set_expected("identifier")
